@@ -174,6 +174,8 @@ pub struct Prop {
     pub both_profiles: bool,
     pub rule: &'static str,
     pub assumptions: &'static [&'static str],
+    /// hand-written regression cases (independent of the tape layout), run in the replay tier
+    pub fixed: Option<fn(&mut Ctx) -> CheckResult>,
 }
 
 // ------------------------------------------------------------------------------------------
@@ -266,6 +268,10 @@ pub enum CaseOutcome {
 pub fn run_case(prop: &Prop, words: &[u32], ctx: &mut Ctx) -> CaseOutcome {
     let mut tape = Tape::new(words);
     let r = catch_unwind(AssertUnwindSafe(|| (prop.check)(&mut tape, ctx)));
+    outcome_of(r, ctx)
+}
+
+fn outcome_of(r: std::thread::Result<CheckResult>, ctx: &mut Ctx) -> CaseOutcome {
     match r {
         Ok(Ok(())) => CaseOutcome::Pass,
         Ok(Err(v)) => CaseOutcome::Violation(v),
@@ -747,7 +753,33 @@ pub fn run_generated(prop: &'static Prop, cfg: &RunConfig, known: &[Known]) -> S
 pub fn run_corpus(prop: &Prop, tier: Tier, verif_dir: &Path, known: &[Known]) -> (u64, Stats) {
     let mut stats = Stats::default();
     let files = corpus_files(verif_dir, prop.id);
-    let n = files.len() as u64;
+    let mut n = files.len() as u64;
+    if let Some(fixed) = prop.fixed {
+        n += 1;
+        let mut ctx = Ctx::new(tier, false);
+        let r = catch_unwind(AssertUnwindSafe(|| fixed(&mut ctx)));
+        match outcome_of(r, &mut ctx) {
+            CaseOutcome::Pass => stats.absorb(&mut ctx),
+            CaseOutcome::HarnessError(e) => {
+                stats.harness_error = Some(format!("{e}\n(in the hand-written regression cases)"));
+                return (n, stats);
+            }
+            CaseOutcome::Violation(v) => {
+                stats.evaluations += 1;
+                if let Some(k) = match_known(known, prop.id, &v) {
+                    *stats.known_hits.entry(k.signature.clone()).or_default() += 1;
+                } else {
+                    stats.failure = Some(Failure {
+                        words: vec![],
+                        sub_check: v.sub_check,
+                        message: v.message,
+                        dump: v.dump,
+                        origin: "hand-written regression case (fixed cases of the property)".into(),
+                    });
+                }
+            }
+        }
+    }
     for f in files {
         let mut ctx = Ctx::new(tier, false);
         match run_case(prop, &f.words, &mut ctx) {
